@@ -344,6 +344,9 @@ func (s *Server) doUpdateOrReplace(ctx context.Context, prefix *gnmi.Path, u *gn
 			target.updates[cv.Path] = &cv.Value
 		}
 	} else {
+		if err := checkPathIndexValues(path); err != nil {
+			return err
+		}
 		_, rwPathElem, err := pathutils.FindPathFromModel(path, target.plugin.GetInfo().ReadWritePaths, true)
 		if err != nil {
 			return err
@@ -361,11 +364,27 @@ func (s *Server) doUpdateOrReplace(ctx context.Context, prefix *gnmi.Path, u *gn
 	return nil
 }
 
+// checkPathIndexValues holds every list key value of an operation's path against the characters a key
+// value may have. The textual path is what is logged and stored: it must be possible to parse it back
+// (an empty key value, for one, is rendered as [k=], which the path parser refuses).
+func checkPathIndexValues(path string) error {
+	_, indexValues := pathutils.ExtractIndexNames(path)
+	for _, indexValue := range indexValues {
+		if err := pathutils.CheckPathIndexIsValid(indexValue); err != nil {
+			return err
+		}
+	}
+	return nil
+}
+
 func (s *Server) doDelete(prefix *gnmi.Path, gnmiPath *gnmi.Path, target *targetInfo) error {
 	prefixPath := utils.StrPath(prefix)
 	path := utils.StrPath(gnmiPath)
 	if prefixPath != "/" {
 		path = fmt.Sprintf("%s%s", prefixPath, path)
+	}
+	if err := checkPathIndexValues(path); err != nil {
+		return err
 	}
 	// Checks for read only paths
 	isExactMatch, rwPath, err := pathutils.FindPathFromModel(path, target.plugin.GetInfo().ReadWritePaths, false)
